@@ -42,6 +42,12 @@ def generate(rng, seed, index, tier):
     if fam == "unbounded" and rng.random() < 0.5:
         kw["obj_lower_limit"] = float(rng.choice([-1e3, -1e6]))
     kw["display_interval"] = float(rng.choice([0.1, 1e18]))
+    if rng.random() < 0.3:
+        # the three tolerances of the status tests are independent parameters
+        kw["local_infeas_tol"] = float(rng.choice([1e-10, 1e-8, 1e-6, 1e-4]))
+        kw["active_tol"] = float(rng.choice([1e-10, 1e-8, 1e-5, 1e-3]))
+        if rng.random() < 0.5:
+            kw["opt_tol"] = float(rng.choice([1e-8, 1e-6, 1e-4]))
     return gen.base_world(seed, ID, index, spec, x0, y0, kw, clock=clock, obs=gen.silent_obs())
 
 
